@@ -8,7 +8,7 @@ use crate::ieng::{self, IndInfo};
 use crate::meng::{self, MCase};
 use crate::rng::Rng;
 use crate::simfmt::Value;
-use crate::sut::{self, Params, T_RESULT};
+use crate::sut::{self, In, Params, T_RESULT};
 use serde::{Deserialize, Serialize};
 use serde_json::json;
 
@@ -232,6 +232,31 @@ impl Check for C11 {
 				(Ok(Err(_)), Ok(Err(_))) => {}
 				(Err(_), Err(_)) => {}
 				(x, y) => fail!("dyn_equals_static", l, "config over() on {l} candles: static {:?}, dyn {:?}", x.map(|r| r.map(|v| v.len())), y.map(|r| r.map(|v| v.len()))),
+			}
+		}
+		// ---- a first candle that does not pass OHLCV::validate() (finite, but disordered / non-positive): whatever the
+		// static init does with it, the dyn init does the same
+		{
+			let w = c.stream[0].candle_f64();
+			let bads = [
+				In::c(w[0], w[2], w[1], w[3], w[4]),          // high and low swapped
+				In::c(w[0], w[1], w[2], w[1] * 1.5, w[4]),    // close above the high
+				In::c(-w[0], -w[2], -w[1], -w[3], w[4]),      // negative prices (a spread)
+				In::c(w[0], w[1], w[2], w[3], -w[4].abs() - 1.0), // negative volume
+			];
+			for (bi, bad) in bads.iter().enumerate() {
+				stats.fault("feed:invalid_first_candle");
+				let st = guarded(|| (info.make)(cfg, bad).map(|_| ()));
+				let dy = guarded(|| (info.dyn_ticks)(cfg, std::slice::from_ref(bad)).map(|_| ()));
+				let class = |r: &Result<Result<(), String>, String>| match r {
+					Ok(Ok(())) => 0,
+					Ok(Err(_)) => 1,
+					Err(_) => 2,
+				};
+				// (the dyn replica also delivers the candle once; a panic there belongs to C10)
+				if class(&st) != class(&dy) && class(&dy) != 2 && class(&st) != 2 {
+					fail!("dyn_equals_static", bi, "first candle {:?} (fails validate()): static init gives {:?}, dyn init gives {:?}", bad.candle_f64(), st, dy);
+				}
 			}
 		}
 		// ---- accessors of the results (first 40 ticks: four guarded calls per slot and tick)
